@@ -145,6 +145,13 @@ def RFile.bindsAt (rf : RFile) (s : Slot) : Option (List (Option Extra)) := look
 /-- `Service.Reference` of service `s`. -/
 def RFile.svcRef (rf : RFile) (s : Bytes) : Option (Option Ref) := lookupB s rf.svcRefs
 
+/-- No global name contains a '.', is a base-type keyword or a container keyword.  (The IDL grammar
+excludes the keywords; it does allow dots in definition names, on which `getEnum` misbehaves.) -/
+def File.saneNames (f : File) : Bool :=
+  f.names.all fun n => (splitLastDot n).isNone && (specBase n).isNone && !isContainerName n
+
+def Program.saneNames (p : Program) : Bool := p.all File.saneNames
+
 /-- Something in the file is bound through include `k`: a type node with Reference index `k`, an
 identifier value whose Extra has Index `k`, or a service whose base service Reference has index `k`. -/
 def RefersTo (f : File) (rf : RFile) (k : Nat) : Prop :=
